@@ -8,10 +8,11 @@
 //   provides metadata); minp = ConnectionList::min_size (drives the PEX enable/disable toggle).
 // Ops (peer index i in 0..5, local address 127.0.0.(2+i); each index connects at most once):
 //   c<i>            connect, BitTorrent handshake with the extension bit + keep-alive
-//   h<i>:<fields>   extension handshake; fields comma separated, each optional:
-//                   x<Z> m::ut_pex, m<Z> m::ut_metadata, p<Z> p, s<Z> metadata_size, q<Z> reqq
-//   r<i>:<p>,<p>..  ut_metadata requests (msg_type 0, piece p : Z), all in ONE segment
-//   g<i>:<e>:<t>:<p> one extended message with id byte e, {msg_type t, piece p}
+//   b<i>:<item>/<item>/..  a batch of extended messages sent in ONE segment (< 500 bytes):
+//                   H<fields>   extension handshake (id 0); fields comma separated, each optional:
+//                               x<Z> m::ut_pex, m<Z> m::ut_metadata, p<Z> p, s<Z> metadata_size
+//                   M<e>.<t>.<p> extended message with id byte e and { msg_type t, piece p }
+//                               (e = 2, t = 0: a ut_metadata request)
 //   t               every connected peer sends a keep-alive, then virtual time moves just past the
 //                   next 2-minute download tick (do_peer_exchange + keep-alives / read timeout)
 //   d<i>            the peer closes its socket
@@ -268,6 +269,7 @@ static std::string run_case(Session& S, const std::string& line) {
         if (idx < 0 || idx >= NPEERS) return "BADCASE";
         std::string arg = op.size() > 3 ? op.substr(3) : "";
         if (k == 'c') {
+          if (peers.count(idx)) return "BADCASE";   // normal form: an index connects at most once
           Peer& P = peers[idx];
           P.w = std::make_unique<WirePeer>();
           std::string ip = "127.0.0." + std::to_string(2 + idx);
@@ -279,55 +281,55 @@ static std::string run_case(Session& S, const std::string& line) {
           pump_all();
           HandshakeIn hs;
           if (!P.w->take_handshake(hs) || hs.info_hash != info_hash) ev += "NOHANDSHAKE ";
-        } else if (k == 'h') {
-          std::string mdict, top;
-          std::string mx, mm, fp, fs_, fq;
+        } else if (k == 'b') {
+          if (!peers.count(idx) || !peers[idx].w) return "BADCASE";
+          std::string batch;
           size_t p = 0;
-          while (p < arg.size()) {
-            size_t q = arg.find(',', p);
-            std::string f = arg.substr(p, q == std::string::npos ? std::string::npos : q - p);
-            if (!f.empty()) {
-              std::string v = f.substr(1);
-              switch (f[0]) {
-              case 'x': mx = v; break;
-              case 'm': mm = v; break;
-              case 'p': fp = v; break;
-              case 's': fs_ = v; break;
-              case 'q': fq = v; break;
+          while (p <= arg.size()) {
+            size_t q = arg.find('/', p);
+            std::string item = arg.substr(p, q == std::string::npos ? std::string::npos : q - p);
+            if (!item.empty() && item[0] == 'H') {
+              std::string mx, mm, fp, fs_;
+              std::string body = item.substr(1);
+              size_t a = 0;
+              while (a <= body.size()) {
+                size_t c = body.find(',', a);
+                std::string f = body.substr(a, c == std::string::npos ? std::string::npos : c - a);
+                if (f.size() >= 2) {
+                  std::string v = f.substr(1);
+                  switch (f[0]) {
+                  case 'x': mx = v; break;
+                  case 'm': mm = v; break;
+                  case 'p': fp = v; break;
+                  case 's': fs_ = v; break;
+                  }
+                }
+                if (c == std::string::npos) break;
+                a = c + 1;
               }
+              // keys sorted: m { ut_metadata, ut_pex }, metadata_size, p
+              std::string msg = "d1:md";
+              if (!mm.empty()) msg += benc_int_field("ut_metadata", mm);
+              if (!mx.empty()) msg += benc_int_field("ut_pex", mx);
+              msg += "e";
+              if (!fs_.empty()) msg += benc_int_field("metadata_size", fs_);
+              if (!fp.empty()) msg += benc_int_field("p", fp);
+              msg += "e";
+              batch += WirePeer::extended(0, msg);
+            } else if (!item.empty() && item[0] == 'M') {
+              std::string f = item.substr(1);
+              size_t a = f.find('.'), c = f.find('.', a + 1);
+              if (a == std::string::npos || c == std::string::npos) return "BADCASE";
+              int eid = std::stoi(f.substr(0, a));
+              batch += WirePeer::extended((uint8_t)eid, "d8:msg_typei" + f.substr(a + 1, c - a - 1) + "e5:piecei" + f.substr(c + 1) + "ee");
+            } else if (!item.empty()) {
+              return "BADCASE";
             }
             if (q == std::string::npos) break;
             p = q + 1;
           }
-          // keys sorted: m { ut_metadata, ut_pex }, metadata_size, p, reqq
-          std::string msg = "d1:md";
-          if (!mm.empty()) msg += benc_int_field("ut_metadata", mm);
-          if (!mx.empty()) msg += benc_int_field("ut_pex", mx);
-          msg += "e";
-          if (!fs_.empty()) msg += benc_int_field("metadata_size", fs_);
-          if (!fp.empty()) msg += benc_int_field("p", fp);
-          if (!fq.empty()) msg += benc_int_field("reqq", fq);
-          msg += "e";
-          peers[idx].w->send_bytes(WirePeer::extended(0, msg));
-          pump_all();
-        } else if (k == 'r') {
-          std::string batch;
-          size_t p = 0;
-          while (p <= arg.size()) {
-            size_t q = arg.find(',', p);
-            std::string f = arg.substr(p, q == std::string::npos ? std::string::npos : q - p);
-            if (!f.empty()) batch += WirePeer::extended(torrent::ProtocolExtension::UT_METADATA, "d8:msg_typei0e5:piecei" + f + "ee");
-            if (q == std::string::npos) break;
-            p = q + 1;
-          }
-          peers[idx].w->send_bytes(batch);
-          pump_all();
-        } else if (k == 'g') {
-          auto f = arg;
-          size_t a = f.find(':'), b = f.find(':', a + 1);
-          int eid = std::stoi(f.substr(0, a));
-          std::string t = f.substr(a + 1, b - a - 1), pc = f.substr(b + 1);
-          peers[idx].w->send_bytes(WirePeer::extended((uint8_t)eid, "d8:msg_typei" + t + "e5:piecei" + pc + "ee"));
+          if (batch.size() >= 500) return "BADCASE";
+          if (peers[idx].w->fd != -1) peers[idx].w->send_bytes(batch);   // after d<i>: nothing to send to
           pump_all();
         } else if (k == 'd') {
           if (peers[idx].w) { peers[idx].w->close_all(); peers[idx].eof_reported = true; }
